@@ -73,7 +73,22 @@ theorem Shrink.congr {s s' t : State} (h : Shrink s s') (ho : t.objs = s'.objs) 
   · rw [hs]; exact h.snap
   · rw [hp]; exact h.opened
 
-theorem invalidate_shrink {P s} (h : Str P s) (k) : Shrink s (invalidate s k) := by
+/-- `s'` is reached from `s` by cleanup steps and the ownership bookkeeping is still consistent -/
+def Clean (P : List ObjId) (s s' : State) : Prop := Str P s' ∧ Shrink s s'
+
+theorem Clean.refl {P s} (h : Str P s) : Clean P s s := ⟨h, Shrink.refl s⟩
+
+theorem Clean.step {P a b c} (h1 : Clean P a b) (h2 : Str P b → Clean P b c) : Clean P a c :=
+  ⟨(h2 h1.1).1, h1.2.trans (h2 h1.1).2⟩
+
+/-- updating fields that neither `Str` nor `Shrink` look at -/
+theorem Clean.upd {P a b} (h : Clean P a b) (t : State) (ho : t.objs = b.objs) (hc : t.cache = b.cache)
+    (ha : t.added = b.added) (hd : t.d2 = b.d2) (hn : t.nextOid = b.nextOid) (hs : t.snap = b.snap)
+    (hp : t.opened = b.opened) : Clean P a t :=
+  ⟨h.1.congr ho hc ha hn, h.2.congr ho hc ha hd hn hs hp⟩
+
+theorem invalidate_clean {P s} (h : Str P s) (k) : Clean P s (invalidate s k) := by
+  refine ⟨invalidate_str h k, ?_⟩
   unfold invalidate
   split
   · rename_i i hi
@@ -97,7 +112,8 @@ theorem remove_shrink (s : State) (i k) (hk : (s.objs i).oid = some k) :
   · rfl
   · rfl
 
-theorem uncreate_shrink {P s} (h : Str P s) (k) : Shrink s (uncreate s k) := by
+theorem uncreate_clean {P s} (h : Str P s) (k) : Clean P s (uncreate s k) := by
+  refine ⟨uncreate_str h k, ?_⟩
   unfold uncreate
   split
   · rename_i i hi
@@ -111,68 +127,74 @@ theorem uncreate_shrink {P s} (h : Str P s) (k) : Shrink s (uncreate s k) := by
     exact this
   · exact Shrink.refl s
 
-theorem abortOne_shrink {P s} (h : Str P s) (i) : Shrink s (abortOne s i) := by
+theorem abortOne_clean {P s} (h : Str P s) (i) : Clean P s (abortOne s i) := by
+  refine ⟨abortOne_str h i, ?_⟩
   unfold abortOne
   split
   · exact Shrink.refl s
   · rename_i k hk
     split
     · exact (remove_shrink s i k hk).congr rfl rfl rfl rfl rfl rfl rfl
-    · exact invalidate_shrink h k
+    · exact (invalidate_clean h k).2
 
-/-- folding cleanup steps: `Str` is kept and the result is a `Shrink` of the start -/
-theorem foldl_shrink {β : Type} {P} (f : State → β → State)
-    (hstr : ∀ s x, Str P s → Str P (f s x)) (hsh : ∀ s x, Str P s → Shrink s (f s x)) :
-    ∀ (l : List β) (s : State), Str P s → Shrink s (l.foldl f s) := by
+/-- folding cleanup steps -/
+theorem foldl_clean {β : Type} {P} (f : State → β → State)
+    (hf : ∀ s x, Str P s → Clean P s (f s x)) :
+    ∀ (l : List β) (s : State), Str P s → Clean P s (l.foldl f s) := by
   intro l
   induction l with
-  | nil => intro s _; exact Shrink.refl s
+  | nil => intro s hs; exact Clean.refl hs
   | cons x t ih =>
     intro s hs
-    exact (hsh s x hs).trans (ih _ (hstr s x hs))
+    exact (hf s x hs).step (fun h => ih _ h)
 
-theorem invalidateAll_shrink {P s} (h : Str P s) (ks) : Shrink s (invalidateAll s ks) :=
-  foldl_shrink invalidate (fun _ k h => invalidate_str h k) (fun _ k h => invalidate_shrink h k) ks s h
+theorem invalidateAll_clean {P s} (h : Str P s) (ks) : Clean P s (invalidateAll s ks) :=
+  foldl_clean invalidate (fun _ k h => invalidate_clean h k) ks s h
 
-theorem invalidateCreating_shrink {P s} (h : Str P s) (ks) : Shrink s (invalidateCreating s ks) :=
-  foldl_shrink uncreate (fun _ k h => uncreate_str h k) (fun _ k h => uncreate_shrink h k) ks s h
+theorem invalidateCreating_clean {P s} (h : Str P s) (ks) : Clean P s (invalidateCreating s ks) :=
+  foldl_clean uncreate (fun _ k h => uncreate_clean h k) ks s h
 
-theorem abortObjs_shrink {P s} (h : Str P s) : Shrink s (abortObjs s) :=
-  foldl_shrink abortOne (fun _ k h => abortOne_str h k) (fun _ k h => abortOne_shrink h k) _ s h
+theorem abortObjs_clean {P s} (h : Str P s) : Clean P s (abortObjs s) :=
+  foldl_clean abortOne (fun _ k h => abortOne_clean h k) _ s h
 
-theorem abortSavepoint_shrink {P s} (h : Str P s) : Shrink s (abortSavepoint s) := by
+theorem tpcCleanup_clean {P s} (h : Str P s) : Clean P s (tpcCleanup s) :=
+  (Clean.refl h).upd _ rfl rfl rfl rfl rfl rfl rfl
+
+theorem dropTmp_clean {P s} (h : Str P s) : Clean P s (dropTmp s) :=
+  (Clean.refl h).upd _ rfl rfl rfl rfl rfl rfl rfl
+
+theorem storageAbort_clean {P s} (h : Str P s) : Clean P s (storageAbort s) :=
+  (Clean.refl h).upd _ rfl rfl rfl rfl rfl rfl rfl
+
+theorem clearRegistered_clean {P s} (h : Str P s) : Clean P s (clearRegistered s) :=
+  (Clean.refl h).upd _ rfl rfl rfl rfl rfl rfl rfl
+
+theorem resetTmp_clean {P s} (h : Str P s) (t p idx cr) : Clean P s (resetTmp s t p idx cr) :=
+  (Clean.refl h).upd _ rfl rfl rfl rfl rfl rfl rfl
+
+theorem invalidateOwnCreating_clean {P s} (h : Str P s) : Clean P s (invalidateOwnCreating s) :=
+  (invalidateCreating_clean h _).upd _ rfl rfl rfl rfl rfl rfl rfl
+
+theorem invalidateModified_clean {P s} (h : Str P s) : Clean P s (invalidateModified s) :=
+  invalidateAll_clean h _
+
+theorem abortSavepoint_clean {P s} (h : Str P s) : Clean P s (abortSavepoint s) := by
   unfold abortSavepoint
   split
-  · exact Shrink.refl s
-  · rename_i t ht
-    dsimp only
-    have h1 := invalidateCreating_shrink h t.creating.keys
-    have h1s := invalidateCreating_str h t.creating.keys
-    have h2 : Shrink s { invalidateCreating s t.creating.keys with sp := none } :=
-      h1.congr rfl rfl rfl rfl rfl rfl rfl
-    have h2s : Str P { invalidateCreating s t.creating.keys with sp := none } :=
-      h1s.congr rfl rfl rfl rfl
-    exact h2.trans (invalidateAll_shrink h2s _)
+  · exact Clean.refl h
+  · exact ((invalidateCreating_clean h _).step dropTmp_clean).step (fun h => invalidateAll_clean h _)
 
-theorem connAbort_shrink {P s} (h : Str P s) : Shrink s (connAbort s) := by
-  unfold connAbort tpcCleanup
-  dsimp only
-  have h1 := abortObjs_shrink h
-  have h1s := abortObjs_str h
-  have h2 := abortSavepoint_shrink h1s
-  have h2s := abortSavepoint_str h1s
-  have h3 := invalidateCreating_shrink h2s (abortSavepoint (abortObjs s)).creating.keys
-  exact ((h1.trans h2).trans h3).congr rfl rfl rfl rfl rfl rfl rfl
+theorem connAbort_clean {P s} (h : Str P s) : Clean P s (connAbort s) :=
+  (((abortObjs_clean h).step abortSavepoint_clean).step invalidateOwnCreating_clean).step tpcCleanup_clean
 
-
-theorem drainAdded_shrink {P s} (h : Str P s) : Shrink s (drainAdded s) := by
+theorem drainAdded_clean {P s} (h : Str P s) : Clean P s (drainAdded s) := by
+  refine ⟨drainAdded_str h, ?_⟩
   unfold drainAdded
   dsimp only
   suffices h' : ∀ (l : Map ObjId) (t : State), Str P t → t.added = l →
       Shrink t (l.foldl (fun (s : State) (p : Oid × ObjId) =>
         disown { s with added := s.added.del p.1 } p.2) t) by
     have h1 := h' s.added s h rfl
-    refine Shrink.congr (s' := { _ with added := [] }) ?_ rfl rfl rfl rfl rfl rfl rfl
     constructor
     · exact h1.cache
     · intro k i hk; simp at hk
@@ -205,59 +227,51 @@ theorem drainAdded_shrink {P s} (h : Str P s) : Shrink s (drainAdded s) := by
     show t.added.del k = rest
     rw [hl]; exact Map.del_head_sorted hs
 
-theorem connTpcAbort_shrink {P s} (h : Str P s) : Shrink s (connTpcAbort s) := by
-  unfold connTpcAbort tpcCleanup
-  dsimp only
+theorem connTpcAbort_clean {P s} (h : Str P s) : Clean P s (connTpcAbort s) := by
+  unfold connTpcAbort
   split
-  · exact Shrink.refl s
-  · have h1 := abortSavepoint_shrink h
-    have h1s := abortSavepoint_str h
-    have h2s : Str P { abortSavepoint s with staged := [] } := h1s.congr rfl rfl rfl rfl
-    have h2 : Shrink s { abortSavepoint s with staged := [] } := h1.congr rfl rfl rfl rfl rfl rfl rfl
-    have h3 := invalidateAll_shrink h2s (abortSavepoint s).modified
-    have h3s := invalidateAll_str h2s (abortSavepoint s).modified
-    have h4 := invalidateCreating_shrink h3s
-      (invalidateAll { abortSavepoint s with staged := [] } (abortSavepoint s).modified).creating.keys
-    have h4s := invalidateCreating_str h3s
-      (invalidateAll { abortSavepoint s with staged := [] } (abortSavepoint s).modified).creating.keys
-    have h5s : Str P { invalidateCreating
-      (invalidateAll { abortSavepoint s with staged := [] } (abortSavepoint s).modified)
-      (invalidateAll { abortSavepoint s with staged := [] } (abortSavepoint s).modified).creating.keys
-        with creating := [] } := h4s.congr rfl rfl rfl rfl
-    have h5 := drainAdded_shrink h5s
-    refine Shrink.congr (s' := drainAdded _) ?_ rfl rfl rfl rfl rfl rfl rfl
-    exact ((h2.trans h3).trans (h4.congr rfl rfl rfl rfl rfl rfl rfl)).trans h5
+  · exact Clean.refl h
+  · exact ((((((abortSavepoint_clean h).step storageAbort_clean).step invalidateModified_clean).step
+      invalidateOwnCreating_clean).step drainAdded_clean).step tpcCleanup_clean)
 
-theorem cleanup_shrink {P s} (h : Str P s) (v) : Shrink s (cleanup v s) := by
+theorem cleanup_clean {P s} (h : Str P s) (v) : Clean P s (cleanup v s) := by
   unfold cleanup
   split
-  · exact connTpcAbort_shrink h
-  · exact (connAbort_shrink h).trans (connTpcAbort_shrink (connAbort_str h))
+  · exact connTpcAbort_clean h
+  · exact (connAbort_clean h).step connTpcAbort_clean
 
-theorem rollbackSavepoint_shrink {P s} (h : Str P s) (p idx cr) :
-    Shrink s (rollbackSavepoint s p idx cr) := by
+theorem rollbackSavepoint_clean {P s} (h : Str P s) (p idx cr) :
+    Clean P s (rollbackSavepoint s p idx cr) := by
   unfold rollbackSavepoint
   dsimp only
-  have h1 := abortObjs_shrink h
-  have h1s := abortObjs_str h
+  have h1 := (abortObjs_clean h).step clearRegistered_clean
   split
-  · exact h1.congr rfl rfl rfl rfl rfl rfl rfl
-  · rename_i t ht
-    have h2s : Str P { abortObjs s with registered := [] } := h1s.congr rfl rfl rfl rfl
-    have h3 := invalidateCreating_shrink h2s (t.creating.keys.filter fun k => !cr.has k)
-    have h3s := invalidateCreating_str h2s (t.creating.keys.filter fun k => !cr.has k)
-    have h4s : Str P { invalidateCreating { abortObjs s with registered := [] }
-        (t.creating.keys.filter fun k => !cr.has k) with sp := some (t.reset p idx cr) } :=
-      h3s.congr rfl rfl rfl rfl
-    have h4 := invalidateAll_shrink h4s t.index.keys
-    exact ((h1.congr rfl rfl rfl rfl rfl rfl rfl).trans
-      (h3.congr rfl rfl rfl rfl rfl rfl rfl)).trans h4
+  · exact h1
+  · exact ((h1.step (fun h => invalidateCreating_clean h _)).step
+      (fun h => resetTmp_clean h _ _ _ _)).step (fun h => invalidateAll_clean h _)
+
+theorem pollOne_str {P s} (h : Str P s) (p) : Str P (pollOne s p) := by
+  unfold pollOne
+  dsimp only
+  repeat' split
+  all_goals first | exact h | exact h.setO_same _ _ rfl rfl
+
+theorem poll_str {P s} (h : Str P s) : Str P (poll s) := by
+  unfold poll
+  exact foldl_pres (Str P) pollOne (fun _ k h => pollOne_str h k) _ _ (h.congr rfl rfl rfl rfl)
+
+theorem afterCompletion_str {P s} (h : Str P s) : Str P (afterCompletion s) := by
+  unfold afterCompletion
+  dsimp only
+  split
+  · exact poll_str (h.congr rfl rfl rfl rfl)
+  · exact h.congr rfl rfl rfl rfl
 
 /-! ### effects: what is guaranteed to have happened -/
 
 /-- generic: each step establishes a property for its own element, and later steps keep it -/
 theorem foldl_effect {β : Type} {P} (f : State → β → State) (Q : β → State → Prop)
-    (hstr : ∀ s x, Str P s → Str P (f s x)) (hsh : ∀ s x, Str P s → Shrink s (f s x))
+    (hf : ∀ s x, Str P s → Clean P s (f s x))
     (s0 : State)
     (hest : ∀ t x, Str P t → Shrink s0 t → Q x (f t x))
     (hstab : ∀ t t' x, Shrink t t' → Q x t → Q x t') :
@@ -270,23 +284,20 @@ theorem foldl_effect {β : Type} {P} (f : State → β → State) (Q : β → St
     simp only [List.foldl_cons]
     rcases List.mem_cons.1 hx with hx | hx
     · subst hx
-      exact hstab _ _ x (foldl_shrink f hstr hsh t _ (hstr s x hs)) (hest s x hs h0)
-    · exact ih _ (hstr s y hs) (h0.trans (hsh s y hs)) x hx
+      exact hstab _ _ x (foldl_clean f hf t _ (hf s x hs).1).2 (hest s x hs h0)
+    · exact ih _ (hf s y hs).1 (h0.trans (hf s y hs).2) x hx
 
 /-- after `_invalidate_creating(ks)` no key of `ks` is in the cache -/
 theorem invalidateCreating_cache {P s} (h : Str P s) (ks) :
     ∀ k ∈ ks, (invalidateCreating s ks).cache.get k = none :=
   foldl_effect uncreate (fun k t => t.cache.get k = none)
-    (fun _ k h => uncreate_str h k) (fun _ k h => uncreate_shrink h k) s
+    (fun _ k h => uncreate_clean h k) s
     (by
       intro t k _ _
       unfold uncreate
       split
       · simp [disown, setO]
-      · rename_i hn
-        cases hc : t.cache.get k with
-        | none => rfl
-        | some i => exact absurd hc (hn i))
+      · assumption)
     (by
       intro t t' k hsh hq
       cases hc : t'.cache.get k with
@@ -299,7 +310,7 @@ theorem invalidateAll_ghost {P s} (h : Str P s) (ks) :
     ∀ k ∈ ks, ∀ i, (invalidateAll s ks).cache.get k = some i →
       ((invalidateAll s ks).objs i).status = .ghost :=
   foldl_effect invalidate (fun k t => ∀ i, t.cache.get k = some i → (t.objs i).status = .ghost)
-    (fun _ k h => invalidate_str h k) (fun _ k h => invalidate_shrink h k) s
+    (fun _ k h => invalidate_clean h k) s
     (by
       intro t k _ _ i hi
       unfold invalidate at hi ⊢
@@ -308,7 +319,7 @@ theorem invalidateAll_ghost {P s} (h : Str P s) (ks) :
         simp only [setO] at hi ⊢
         rw [hj] at hi; cases hi
         simp
-      · exact hi)
+      · rename_i hn; rw [hn] at hi; cases hi)
     (by
       intro t t' k hsh hq i hi
       exact hsh.ghostKept i (hq i (hsh.cache k i hi)))
@@ -325,7 +336,7 @@ theorem abortObjs_effect {s} (h : Str [] s) :
     (fun i t => ∀ k, (s.objs i).oid = some k →
       (s.added.get k = some i → (t.objs i).oid = none) ∧
       (s.added.get k = none → (t.objs i).status = .ghost ∨ (t.objs i).oid = none))
-    (fun _ k h => abortOne_str h k) (fun _ k h => abortOne_shrink h k) s
+    (fun _ k h => abortOne_clean h k) s
     (by
       intro t i ht hsh k hk
       have hoid := hsh.oid i
